@@ -16,6 +16,7 @@ def main():
     args = ap.parse_args()
     seed = int(os.environ.get('VERIF_SEED', '0') or 0)
     tier = args.tier if args.tier in ('quick', 'thorough') else 'quick'
+    os.environ['VERIF_TIER'] = tier
     try:
         mod = importlib.import_module('sa.rules.' + args.property)
         ctx = report.Ctx(args.property, tier, args.repo, seed)
